@@ -60,5 +60,22 @@ theorem update_preserves_psd (P : Matrix n n ℝ) (H : Matrix m n ℝ) (Q : Matr
   simp only [conjTranspose_eq_transpose_of_trivial] at h1 h2
   exact h1.add h2
 
+/-- the posterior never exceeds the prior: `P - (P - K H P) = K H P = (H P)ᵀ S⁻¹ (H P)` is PSD when `S` is positive definite. -/
+theorem posterior_le_prior (P : Matrix n n ℝ) (H : Matrix m n ℝ) (Q : Matrix m m ℝ)
+    (hP : P.PosSemidef) (hS : (H * P * Hᵀ + Q).PosDef) :
+    (P - (P - (P * Hᵀ * (H * P * Hᵀ + Q)⁻¹) * H * P)).PosSemidef := by
+  have hPt : Pᵀ = P := by
+    have h := hP.isHermitian
+    simpa [Matrix.IsHermitian, conjTranspose_eq_transpose_of_trivial] using h
+  have hform : P - (P - (P * Hᵀ * (H * P * Hᵀ + Q)⁻¹) * H * P)
+      = (H * P)ᵀ * (H * P * Hᵀ + Q)⁻¹ * (H * P) := by
+    rw [Matrix.transpose_mul, hPt]
+    simp only [Matrix.mul_assoc]
+    abel
+  rw [hform]
+  have h := hS.inv.posSemidef.conjTranspose_mul_mul_same (H * P)
+  simpa [conjTranspose_eq_transpose_of_trivial] using h
+
 #print axioms predict_preserves_psd
 #print axioms update_preserves_psd
+#print axioms posterior_le_prior
